@@ -137,6 +137,7 @@ func c07WholeLineBatches(c *Ctx) {
 // when that later step fails; once the destination is back the path exists again, no reopen happens, and every
 // accepted event is lost with "file already closed".
 func c07DescriptorKept(c *Ctx) {
+	c.Explanation += " (6) the active descriptor is closed only under the success outcome of the os.OpenFile that replaces it."
 	p := c.P
 	rt := p.Type(fileRel, "rotateFile")
 	if !c.Anchor(rt != nil, "descriptor-kept-until-replaced", "type pushers/file.rotateFile") {
